@@ -1,0 +1,14 @@
+//go:build verif
+
+package ugo
+
+import "github.com/ozanh/ugo/parser"
+
+// Verification hooks (build tag `verif` only): access to the unexported trace
+// bookkeeping of RuntimeError for the correspondence stream `pos` (C16).
+
+// VerifAddTrace calls the unexported addTrace.
+func (o *RuntimeError) VerifAddTrace(pos parser.Pos) { o.addTrace(pos) }
+
+// VerifSetFileSet sets the unexported fileSet used by StackTrace.
+func (o *RuntimeError) VerifSetFileSet(fs *parser.SourceFileSet) { o.fileSet = fs }
